@@ -51,7 +51,17 @@ pub fn c05_c06(d: &Digest, s: usize, out: &mut Vec<Violation>) {
         let mut accepted = 0i64;
         let mut taken = 0i64;
         let mut len = 0usize;
+        // "taken by the reducer" seen from outside: the action's pipeline has begun (its first
+        // reducer-context callback).  One action may be in between (out of the queue, pipeline not
+        // yet begun).  Only meaningful where every action has some scripted callback.
+        let by_callbacks = observable(sd) && !sd.model.hole_reducers;
+        let mut firsts: Vec<usize> = sd.insts.iter().map(|i| i.first).collect();
+        firsts.sort();
+        let mut started = 0usize;
         for (i, e) in d.ev.iter().enumerate() {
+            while started < firsts.len() && firsts[started] <= i {
+                started += 1;
+            }
             match &e.k {
                 K::Ret { thr, idx, res: Res::Ok } => {
                     if sd.dispatches.iter().any(|&c| d.calls[c].thr == *thr && d.calls[c].idx == *idx && d.calls[c].ret == Some(i)) {
@@ -74,6 +84,11 @@ pub fn c05_c06(d: &Digest, s: usize, out: &mut Vec<Violation>) {
                         .collect();
                     let closing = sd.shutdowns.iter().any(|&c| d.calls[c].inv < i && d.calls[c].ret_or_max() > i);
                     if !pending.is_empty() && !closing {
+                        // the reducer is parked inside a pipeline, the queue is full: exactly `cap`
+                        // accepted actions have not begun
+                        if by_callbacks && accepted - started as i64 != cap as i64 {
+                            v(out, "C05", "bound", format!("store {s}: at quiescence with dispatches waiting, {} accepted actions have not begun, capacity {cap}", accepted - started as i64));
+                        }
                         if len != cap {
                             v(out, "C05", "blocked-while-room", format!("store {s}: {} dispatch call(s) still waiting at quiescence while the queue holds {len} of {cap}", pending.len()));
                         }
@@ -90,6 +105,10 @@ pub fn c05_c06(d: &Digest, s: usize, out: &mut Vec<Violation>) {
                     }
                 }
                 _ => {}
+            }
+            if by_callbacks && accepted - started as i64 > cap as i64 + 1 {
+                v(out, "C05", "bound", format!("store {s}: {} actions accepted whose processing has not begun, capacity {cap}", accepted - started as i64));
+                break;
             }
             if accepted - taken > cap as i64 {
                 v(out, "C05", "bound", format!("store {s}: {} actions accepted but not yet taken by the reducer, capacity {cap}", accepted - taken));
